@@ -99,6 +99,21 @@ def assignTail : List Char → Bool
   | '=' :: _ => true
   | _ => false
 
+/-- group 1 of `_ASSIGNMENT_RE.match(raw)` without its brackets: the subscript of `NAME[subscript]=…` / `NAME[subscript]+=…` -/
+def assignSubscript (raw : String) : Option String :=
+  match raw.toList with
+  | c :: rest =>
+    if isNameStart c then
+      match rest.dropWhile isNameChar with
+      | '[' :: t =>
+        (match t.dropWhile (· != ']') with
+         | ']' :: '+' :: '=' :: _ => some (String.ofList (t.takeWhile (· != ']')))
+         | ']' :: '=' :: _ => some (String.ofList (t.takeWhile (· != ']')))
+         | _ => none)
+      | _ => none
+    else none
+  | [] => none
+
 /-- `_ASSIGNMENT_RE.match(raw)`: `[A-Za-z_][A-Za-z0-9_]*(\[[^\]]*\])?\+?=` at the start of the raw word -/
 def isAssignWord (raw : String) : Bool :=
   match raw.toList with
@@ -436,7 +451,12 @@ def aCmdWords (ctx : CmdCtx) : List Word → Nat → String → Bool → List De
   | [], _, _, _ => []
   | wd :: ws, pos, cwd, remote =>
     (match wd with
-     | .mk _ ps => aCmdParts ctx wd pos ps cwd remote)
+     | .mk v ps =>
+       -- the subscript of NAME[subscript]=value is arithmetic for bash, quoted or not: its text is scanned
+       (match assignSubscript v with
+        | some t => scanDecisions rec false t cwd remote
+        | none => [])
+       ++ aCmdParts ctx wd pos ps cwd remote)
     ++ aCmdWords ctx ws (pos + 1) cwd remote
 
 /-- the per-part loop of `_analyze_command` -/
